@@ -5,7 +5,8 @@
  * Each transition is exactly a reference-count clause of an ENFORCED contract (the macros of sf_spec.h, instantiated here with
  * L_ALIVE_WITH): creation = CREATED (constructors, get_promise), copy = REF_ADDED (copy constructor / assignment), drop =
  * REF_DROPPED (destructor / assignment away), resolution = the future leaves `pending` and the tracer's resume function runs
- * once = REF_DROPPED (tracer_resume).  Assumed from C01/C02 (not proved here): a pending future is resolved at most once and
+ * once = REF_DROPPED (tracer_resume), binding a new operation to a state that is not pending = TRACER_CHARGED (operator<<,
+ * get_promise on an initialised handle).  Assumed from C01/C02 (not proved here): a pending future is resolved at most once and
  * resolution resumes every subscribed awaiter - here the tracer - exactly once.
  * Invariant LI and consequences, for histories of any length and any number of handles:
  *   (a) while the future is pending the state is alive - it cannot be freed before resolution, even when h == 0;
@@ -45,6 +46,12 @@ void h_lemma(void)
       p = 0;
       __CPROVER_assume(REF_DROPPED(c, L_ALIVE_WITH, rel2 == rel, (rel2 == rel + 1 && alive2 == 0)));
       alive = alive2; c = c2; rel = rel2; t = 0;
+    } else if (op == 3 && h >= 1 && p == 0) {                /* operator<<(fn) / get_promise() through a live handle of a state that is NOT pending (fresh from
+                                                                init_if_needed(), or resolved): a new operation is bound to the state, pending or already done */
+      int p2 = nondet_bool() ? 1 : 0; int t2 = nondet_int();
+      __CPROVER_assert(alive == 1, "lemma (d): a handle that is re-targeted refers to a live state");
+      __CPROVER_assume(TRACER_CHARGED(p2, c, t2, L_ALIVE_WITH) && rel2 == rel);
+      alive = alive2; c = c2; t = t2; p = p2;
     }
     __CPROVER_assert(rel <= 1, "lemma (b): the state is never destroyed / released twice");
   }
